@@ -421,6 +421,9 @@ def _decide(pid: str, tier: str, seed: int, reg: Any, own: list, results: dict, 
                                "confirmed": True, "replay_report": {"violations": [fl["violation"]], "outcome": fl["outcome"]}})
         if s["cases"] and not s["applicable"]:
             checker_errors.append(f"{t}: no generated input satisfied the precondition (cover missing)")
+        if not s["cases"] and not s.get("error"):
+            # vacuity guard of the cross-check itself: a sampler that evaluates nothing (e.g. every call ends in a harness exception) confirms nothing
+            checker_errors.append(f"{t}: the sampled cross-check evaluated no case ({'; '.join(s.get('spec_errors', [])[:1]) or 'no detail'})")
     for b in bounded:
         bounded_checks.append({k: b.get(k) for k in ("name", "function", "method", "bound", "cases", "label", "exhaustive")}
                               | {"failures": len(b.get("failures", []))})
